@@ -54,7 +54,9 @@ def run(R, tier):
     R.check(len(trailing) >= 2, "R10.2", "trailing-separator-exit", "the exit taken after a trailing `;` was analysed (%d paths)" % len(trailing), "no successful path for a message ending in `;`")
 
     # ---- R10.4 formatter impls --------------------------------------------------------------------------------
-    eng = D.engine(inline=D.inline_inherent(("scpi::parser::response::ResponseUnit::",)))
+    _ru = D.inline_inherent(("scpi::parser::response::ResponseUnit::",))
+    _rm = E._helpers_of_response_module(P)
+    eng = D.engine(inline=lambda n, r: _ru(n, r) or _rm(n, r))
     FWHO = [w for w in ("arrayvec::ArrayVec", "alloc::vec::Vec") if u.trait_methods_for("parser::response::Formatter", w).get("push_byte") is not None and any(w in (x.impl_self or "") for x in u.bodies if "parser::response::Formatter" in (x.impl_trait or ""))]
     impls = [u.trait_method("parser::response::Formatter", "response_unit", w) for w in FWHO]
     R.floor("R10.4", "Formatter impls", len(impls), 2)
